@@ -114,6 +114,13 @@ CHECKS = {
         real=REAL_COMMON, stub=['allocator seam as monitor: libc allocations trapped (wrap) while static contexts work; accounting allocator with peak/live bytes for heap contexts', 'guard-zoned caller-provided workspaces of exactly estimate bytes'],
         assumptions=['"level l <= L" is over effective levels (0 = ZSTD_CLEVEL_DEFAULT)', 'the sweep over levels / cParams / inputs is generated workload (rides along); the simulated dimension is the allocator as enforcer and monitor'],
     ),
+    'C08': dict(
+        level='exploration',
+        batches=[dict(scenario='c08dict', flavour='P', quick=8000, thorough=200000), dict(scenario='c08dict', flavour='A', quick=1600, thorough=30000), dict(scenario='c08dict', flavour='T', quick=800, thorough=12000)],
+        rule='per run: input x parameters x dictionary (raw content of any length incl. <8 bytes, structured via ZDICT_finalizeDictionary, 1/5 with 1-6 bit flips in the entropy header kept only if both loaders accept) x compress supply mode (usingDict, CDict byCopy/byRef, loadDictionary, refCDict, refPrefix; forceAttachDict history on a reused context) x decode supply mode (usingDict, DDict, loadDictionary, refDDict stream, multi-DDict table, refPrefix); every 3rd run a decoder-side store fault (other ID / same ID other content / truncated / bit flip); every 5th run one CDict+DDict shared by two simulated caller threads; distinct = distinct plan signature',
+        real=REAL_COMMON, stub=['the decoder-side dictionary store (faults)', 'pthread primitives (shared-dictionary runs, TSan flavour)', 'independent decoder for conformance with dictionaries', 'allocator'],
+        assumptions=['supply-mode x level x dictionary-structure matrix is generated workload; the simulated dimensions are the two-party dictionary store and cross-thread sharing', 'same-ID-other-content without checksum: no claim (undetectable by design)'],
+    ),
 }
 
 def default_root(tier):
